@@ -38,14 +38,14 @@ TARGETS = {
     "straus_serial": {"file": "curve25519-dalek/src/backend/serial/scalar_mul/straus.rs", "config": "simd", "props": [("C04", "serial"), ("C13", "serial")]},
     "pippenger_serial": {"file": "curve25519-dalek/src/backend/serial/scalar_mul/pippenger.rs", "config": "simd", "props": [("C04", "serial")]},
     "varbase_serial": {"file": "curve25519-dalek/src/backend/serial/scalar_mul/variable_base.rs", "config": "simd", "props": [("C04", "serial")]},
-    "doublebase_serial": {"file": "curve25519-dalek/src/backend/serial/scalar_mul/vartime_double_base.rs", "config": "simd", "props": [("C04", "serial"), ("C09", "serial")]},
+    "doublebase_serial": {"file": "curve25519-dalek/src/backend/serial/scalar_mul/vartime_double_base.rs", "config": "simd", "props": [("C04", "serial"), ("C09", "serial"), ("C04", "serial", "rel-notables"), ("C09", "serial", "rel-notables")]},
     "precomp_serial": {"file": "curve25519-dalek/src/backend/serial/scalar_mul/precomputed_straus.rs", "config": "simd", "props": [("C04", "serial")]},
     "straus_vector": {"file": "curve25519-dalek/src/backend/vector/scalar_mul/straus.rs", "config": "simd", "props": [("C04", "auto")]},
     "pippenger_vector": {"file": "curve25519-dalek/src/backend/vector/scalar_mul/pippenger.rs", "config": "simd", "props": [("C04", "auto")]},
     "varbase_vector": {"file": "curve25519-dalek/src/backend/vector/scalar_mul/variable_base.rs", "config": "simd", "props": [("C04", "auto")]},
-    "doublebase_vector": {"file": "curve25519-dalek/src/backend/vector/scalar_mul/vartime_double_base.rs", "config": "simd", "props": [("C04", "auto"), ("C09", "auto")]},
+    "doublebase_vector": {"file": "curve25519-dalek/src/backend/vector/scalar_mul/vartime_double_base.rs", "config": "simd", "props": [("C04", "auto"), ("C09", "auto"), ("C04", "auto", "rel-notables")]},
     "precomp_vector": {"file": "curve25519-dalek/src/backend/vector/scalar_mul/precomputed_straus.rs", "config": "simd", "props": [("C04", "auto")]},
-    "window":     {"file": "curve25519-dalek/src/window.rs", "config": "simd", "props": [("C04", "auto"), ("C04", "serial"), ("C12", "auto")]},
+    "window":     {"file": "curve25519-dalek/src/window.rs", "config": "simd", "props": [("C04", "auto"), ("C04", "serial"), ("C12", "auto"), ("C04", "serial", "rel-notables"), ("C04", "auto", "rel-notables")]},
     "scalar":     {"file": "curve25519-dalek/src/scalar.rs", "config": "simd", "props": [("C02", "auto"), ("C04", "auto"), ("C17", "auto")]},
     "field":      {"file": "curve25519-dalek/src/field.rs", "config": "simd", "props": [("C01", "auto"), ("C03", "auto"), ("C06", "auto")]},
     "edwards":    {"file": "curve25519-dalek/src/edwards.rs", "config": "simd", "props": [("C03", "auto"), ("C04", "auto"), ("C17", "auto")]},
@@ -173,22 +173,27 @@ def build(mc, base, config, variant):
     return p.returncode == 0, p.stdout, os.path.join(env["CARGO_TARGET_DIR"], v["profile"], "dalek-mc")
 
 
-def run_props(exe, base, props, timeout):
-    """Returns (verdict, detail)."""
-    for prop, dispatch in props:
+def run_props(exes, base, props, timeout):
+    """Returns (verdict, detail).  `exes`: variant -> binary, or a callable building it on demand."""
+    for ent in props:
+        prop, dispatch = ent[0], ent[1]
+        variant = ent[2] if len(ent) > 2 else "rel"
+        exe = exes(variant)
+        if exe is None:
+            return "compile_error", variant
         out = os.path.join(base, "out.json")
         if os.path.exists(out):
             os.remove(out)
         try:
             p = sh([exe, prop, "--tier", "quick", "--out", out, "--dispatch", dispatch], cwd=base, timeout=timeout)
         except subprocess.TimeoutExpired:
-            return "timeout", "%s/%s" % (prop, dispatch)
+            return "timeout", "%s/%s/%s" % (prop, dispatch, variant)
         if not os.path.exists(out):
-            return "crash", "%s/%s exit %s: %s" % (prop, dispatch, p.returncode, p.stdout[-300:])
+            return "crash", "%s/%s/%s exit %s: %s" % (prop, dispatch, variant, p.returncode, p.stdout[-300:])
         j = json.load(open(out))
         if j.get("violations"):
             v = j["violations"][0]
-            return "caught", "%s/%s: %s: %s" % (prop, dispatch, v.get("key"), str(v.get("message"))[:160])
+            return "caught", "%s/%s/%s: %s: %s" % (prop, dispatch, variant, v.get("key"), str(v.get("message"))[:160])
     return "survived", ""
 
 
@@ -209,10 +214,21 @@ def run(target, stride, offset, limit, lane, variant="rel"):
     if limit:
         chosen = chosen[:limit]
     print("%s: %d candidate mutants, running %d (stride %d offset %d) on %s" % (target, len(sites), len(chosen), stride, offset, t["config"]), flush=True)
-    ok, log, exe = build(mc, base, t["config"], variant)
-    assert ok, log[-3000:]
+    def builder():
+        cache = {}
+
+        def get(var):
+            if var not in cache:
+                ok, log, exe = build(mc, base, t["config"], var)
+                cache[var] = exe if ok else None
+                if not ok:
+                    cache["log"] = log
+            return cache[var]
+        return get, cache
+    get, cache = builder()
+    assert get("rel") is not None, cache.get("log", "")[-3000:]
     t0 = time.time()
-    v, d = run_props(exe, base, t["props"], 900)
+    v, d = run_props(get, base, t["props"], 900)
     base_time = time.time() - t0
     assert v == "survived", "baseline is not clean: %s %s" % (v, d)
     timeout = max(120, int(base_time * 6))
@@ -233,16 +249,16 @@ def run(target, stride, offset, limit, lane, variant="rel"):
             m[i] = new
             open(path, "w").write("\n".join(m))
             t1 = time.time()
-            ok, log, exe = build(mc, base, t["config"], variant)
-            if not ok:
+            get, cache = builder()
+            if get(t["props"][0][2] if len(t["props"][0]) > 2 else "rel") is None:
                 verdict, detail = "compile_error", ""
             else:
-                verdict, detail = run_props(exe, base, t["props"], timeout)
+                verdict, detail = run_props(get, base, t["props"], timeout)
                 if verdict == "survived":
                     # second pass: every other quick explorer of this configuration (a constant is C12's business, the
                     # ladder's swap is C07's, ...); C05/C10/C11 are compositions of these and are not run here
-                    rest = [(p, t["props"][0][1]) for p in SECOND_PASS if p not in [q for q, _ in t["props"]]]
-                    verdict, detail = run_props(exe, base, rest, timeout)
+                    rest = [(p, t["props"][0][1]) for p in SECOND_PASS if p not in [e[0] for e in t["props"]]]
+                    verdict, detail = run_props(get, base, rest, timeout)
                     if verdict != "survived":
                         detail = "(second pass) " + detail
             r = {"line": i + 1, "mutation": desc, "old": src[i].strip()[:200], "new": new.strip()[:200], "verdict": verdict, "detail": detail, "seconds": round(time.time() - t1, 1), "harness": harness_id()}
@@ -296,7 +312,7 @@ def report():
         for r in j["results"]:
             c[r["verdict"]] = c.get(r["verdict"], 0) + 1
         killed = c.get("caught", 0) + c.get("crash", 0) + c.get("timeout", 0)
-        lines.append("| %s | %s | %s: %s | %d | %d | %d | %d |" % (j["target"], j["file"], j["config"], ", ".join("%s/%s" % (p, d) for p, d in j["explorers"]), len(j["results"]), c.get("compile_error", 0), killed, c.get("survived", 0)))
+        lines.append("| %s | %s | %s: %s | %d | %d | %d | %d |" % (j["target"], j["file"], j["config"], ", ".join("/".join(e) for e in j["explorers"]), len(j["results"]), c.get("compile_error", 0), killed, c.get("survived", 0)))
     open(os.path.join(OUT, "SUMMARY.md"), "w").write("\n".join(lines) + "\n")
     print("\n".join(lines))
 
